@@ -12,11 +12,36 @@ CHECKS = {
          "Every belt mechanism is called on enumerated boundary structure (all CTS lengths, wide-block lengths 32..208, header lengths straddling 16, counters wrapping 32/64/128 bits, alteration classes of authenticated unwrapping, FMT alphabets x word lengths, the FMT block-count table by breakpoints) and each result is recomputed by TLC from the standard's definition; not a proof over all keys/data: data octets are seeded samples.",
          "Trusted: TLC, the transcription of the standard in spec/ref (anchored by the appendix vectors in the same run), the C driver. ASan/UBSan build with exact-size buffers.",
          "DESIGN.md section 4, C01"),
+ "C03": ("model_checking",
+         "TLA+ reference semantics of STB 34.101.77 / 34.101.47 (spec/ref/BashF, Brng, Botp) anchored by appendix vectors evaluated by TLC; the bash programmable automaton as a state machine (spec/sm/BashPrg.tla) model-checked over command histories, every explored behaviour replayed on the real bashPrg* functions; recorded one-shot calls and random automaton scripts validated by TLC (Trace_Bash)",
+         "bash-f in every platform variant the CPU supports, hash levels x length classes around the rate, all automaton command histories to depth 2-3 on the 12 configurations (deeper by simulation), brng CTR counters wrapping one word / two words / all 256 bits, HMAC key/IV length classes, OTP digit counts and counter wrap-around: each result recomputed by TLC from the standards' text.",
+         "Trusted: TLC, the transcription of the standards (anchored by the appendix vectors), the C driver.",
+         "DESIGN.md section 4, C03"),
+ "C04": ("model_checking",
+         "symbolic protocol state machine spec/sm/Bake.tla (BMQV, BSTS, BPACE, BAUTH x kca/kcb x one attacker action) model-checked exhaustively; every terminal case replayed step by step and through RunA/RunB on the real code with concrete keys; altered points classified by TLC with exact curve arithmetic before the prediction is selected (Trace_Bake)",
+         "Honest runs end with equal keys and all steps OK; a tampered message is rejected by the party that requires confirmation at the predicted step with the predicted error class, and without confirmation the keys differ; exhaustive over protocol x flags x attacker action (message part x kind), concrete octet positions and curves per tier.",
+         "Trusted: TLC, the symbolic model of the headers' step contracts, the C driver; derived key VALUES of honest runs are not recomputed (only agreement), negated points are accepted by design where only x-coordinates are used.",
+         "DESIGN.md section 4, C04"),
+ "C08": ("model_checking",
+         "TLA+ specification of the DER profile of der.h and of the OID / APDU / hex / base64 / decimal codecs (spec/ref/Der.tla, Codecs.tla) as partial functions with consumed length; TLC evaluates the decoders on ALL short strings (two-level enumeration, per-prefix aggregates compared with the real decoders, differing prefixes expanded) and on structure-aware mutants recorded from the real code (Trace_Codec)",
+         "Exhaustive: every octet string of <= 3 octets for TL / SIZE / OID decoding (thorough; quick takes a slice of first octets), every string of <= 3 symbols for hex / decimal, a structured 4-symbol space for base64. Mutants: every tag form, length form (incl. near SIZE_MAX), typed values, all APDU Lc x Le forms, truncations / octet changes of bign parameters and CV certificates; inputs end at a PROT_NONE guard page so any over-read faults.",
+         "Trusted: TLC, the transcription of X.690 / ISO 7816-4 as profiled by the headers, guard pages + ASan as the bounds sensor.",
+         "DESIGN.md section 4, C08"),
+ "C17": ("model_checking",
+         "secure-messaging state machine spec/sm/BtokSM.tla model-checked over all operation sequences <= 6 of two peers, all behaviours replayed on btokSM*; CV-certificate chains spec/sm/CvcChain.tla enumerated (field classes, alterations, depth 1..3) and executed with real signatures; protected-APDU and key-container VALUES recomputed by TLC from BeltModes (CFB, MAC, PBKDF2, KWP)",
+         "Accepted => recovered APDU = protected APDU, counters in step, parity right; altered => rejected; wrong parity => ERR_BAD_LOGIC (replay detection not claimed). Certificates validate exactly when signature, names and validity periods line up; every single-octet alteration of sampled certificates / containers / protected APDUs is rejected; containers open only with the right password.",
+         "Trusted: TLC, the model of btok.h / bpki.h, real bign signatures (tied to the standard by C02), the C driver.",
+         "DESIGN.md section 4, C17"),
  "C07": ("exploration",
          "resource monitor spec/mon/Regions.tla (TLC trace validation of region / abort events) over the enumerated replay suites executed in exact-size ASan+UBSan+assert builds for 64- and 32-bit words; sensor = AddressSanitizer/UBSan/utilAssert (thorough: + valgrind memcheck)",
          "Memory safety is not decided by a TLA+ model: the specification family contributes the systematic behaviour space (all lengths / levels / alphabets / fragmentings / overlaps that the functional specs enumerate) and the region monitor; the verdict comes from the sanitizers on executions where every state, stack, blob and caller buffer has exactly the documented size.",
          "Trusted: clang ASan/UBSan (alignment check off by design of the library), the guarded exact-blob hook, the drivers allocating exact sizes. Only behaviours in checks/suites.py are exercised.",
          "DESIGN.md section 4, C07 and section 7"),
+ "C09": ("fault_enumeration",
+         "error-contract table transcribed from the headers' \\expect clauses (spec/sm/ErrContract.tla, generated + checked by TLC) and heap state machine spec/sm/Heap.tla; TLC generates the argument sweeps (Gen_Err), the harness runs every case with link-time allocator interposition (k-th allocation failure for k = 1..n+1), TLC judges result lines (Trace_Err: E1 error class, E2 no release on failed authentication) and allocator traces (Trace_Heap: E3 failure => error, E4 no leak)",
+         "105 err_t functions (192 header clauses) are driven: each scalar argument across and beyond its documented domain, every allocation position of every valid call failed once, tampered tokens with pre/post images of the outputs. Quick runs a seeded third of the functions, thorough all.",
+         "Trusted: TLC, the header transcription (every clause carries its source line), --wrap allocator interposition, ASan build with exact-size blobs. Pointer-validity / overlap clauses and on-curve / primality-type \\expect conditions (only partially checked by design, util.h) are not demanded.",
+         "DESIGN.md section 4, C09"),
  "C10": ("model_checking",
          "TLC exhaustive model checking of the buffering state machine spec/sm/StepApi.tla per discipline; every explored fragment script replayed on the real Start/Step/Get bundles (Get/Verify and state relocation at scripted positions); TLC judges each executed script against the one-shot reference semantics (Trace_Belt!StepsOk)",
          "Within the bounds (fragments, total length, marks) over the boundary alphabet {0,1,blk-1,blk,blk+1,2blk-1,2blk,2blk+1} every fragment script is enumerated by TLC and executed on the real code (quick: a seeded subset of the larger families); the value oracle is the one-shot specification.",
@@ -37,6 +62,11 @@ CHECKS = {
          "Every SAFE edition of the 33 SAFE/FAST pairs, the tag/hash/header verification entry points and the symmetric primitives are single-stepped for enumerated secret variants per public length; all PC traces of one public class must coincide (the irregular FAST(memEq) must be flagged: sensor self-test). Address independence is not part of the statement and not checked.",
          "Trusted: PTRACE_SINGLESTEP as the sensor of executed branches, TLC, the secret-variant classes of harness/drv_ct.c; x86-64 objects produced by gcc -O2 (thorough: also -O3 and clang -O2).",
          "DESIGN.md section 4, C14"),
+ "C15": ("model_checking",
+         "heap-block lifecycle state machine spec/sm/Heap.tla model-checked exhaustively (MC_Heap) and used as the trace specification (Trace_Heap) for allocator events recorded by link-time interposition; the wiped attribute of a block is computed at free time from memWipe's deterministic pattern over the whole exact-size block",
+         "For 75 secret-processing functions, on success and on every driven error exit and fault position, every block handed back to the allocator must carry the wipe pattern over its whole size (exact-size blobs); realloc is interposed as allocate-copy-snapshot-free so released old blocks are judged too; a content search for the call's secrets in freed blocks is a second signal.",
+         "Trusted: TLC, the interposed allocator and its pattern test (src/core/mem.c memWipe), the driven function table of harness/drv_err.c.",
+         "DESIGN.md section 4, C15"),
  "C19": ("translation_validation",
          "re-execution of the replay suites in every build configuration; TLC judges every distinct answer with the TLA+ reference semantics and checks with spec/mon/Configs.tla that all configurations answered every case identically",
          "The enumerated cases of the functional checks (belt record/FMT/generated cases/fragment scripts/overlap placements, plus the suites of the other drivers) are executed by harnesses built per configuration: {64,32}-bit words x {SAFE,FAST} x {-O0..-O3} x {NDEBUG on,off} x bash-f platform (quick: 6 configurations toggling each axis once; thorough: the product the CPU supports). The right value is pinned by the specification, not merely a common one.",
